@@ -206,13 +206,13 @@ def unit(virt=False):
                 meta={'function': '%s.ArmV6.translate_address_v' % A.__module__, 'also': ALSO_MEM})
 
 
-def unit_ld(virt=False):
+def unit_ld(virt=False, hyp=False):
     """stage 1, Long-descriptor format (TTBCR.EAE == 1), outside Hyp mode, no Virtualization Extensions"""
     m = registry.mods()
     A = m.arm_v6.ArmV6
     MT = m.memory_attributes.MemType
     tcode = {MT.NORMAL: PM.NORMAL, MT.DEVICE: PM.DEVICE, MT.STRONGLY_ORDERED: PM.STRONGLY_ORDERED}
-    uid = 'C15/fn:%s.ArmV6.translate_address_v[stage1,long-descriptor%s]' % (A.__module__, ',virt-ext present,stage 2 off' if virt else '')
+    uid = 'C15/fn:%s.ArmV6.translate_address_v[stage1,long-descriptor%s]' % (A.__module__, ',Hyp mode' if hyp else (',virt-ext present,stage 2 off' if virt else ''))
 
     def symbolic(eng):
         log = eng.register([])
@@ -223,12 +223,16 @@ def unit_ld(virt=False):
         cfg = mach.configs
         mode0 = bits(init['cpsr'], 4, 0)
         eng.assume(lnot(ST.bad_mode(mode0, cfg['have_security_ext'], cfg['have_virt_ext'])))
-        eng.assume(mode0 != ST.HYP)
-        if virt:
-            # stage 2 inactive: Secure state, or HCR.VM == 0 (the second stage is outside every unit, DESIGN 14.16)
+        eng.assume((mode0 == ST.HYP) if hyp else (mode0 != ST.HYP))
+        if virt and not hyp:
+            # stage 2 inactive: Secure state, or HCR.VM == 0
             eng.assume(lor(ST.is_secure(init), bit(init['hcr'], 0) == 0))
-        eng.assume(bit(init['ttbcr'], 31) == 1)                      # EAE
-        eng.assume(bit(init['sctlr'], 0) == 1)                       # MMU on (off: the short-descriptor unit)
+        if hyp:
+            eng.assume(lnot(ST.is_secure(init)))                         # Hyp mode exists in Non-secure state only
+            eng.assume(bit(init['hsctlr'], 0) == 1)                      # HSCTLR.M (off: flat map, safety unit)
+        else:
+            eng.assume(bit(init['ttbcr'], 31) == 1)                      # EAE
+            eng.assume(bit(init['sctlr'], 0) == 1)                       # MMU on (off: the short-descriptor unit)
         va = eng.fresh_int('va', 32)
         ispriv = eng.fresh_bool('ispriv')
         iswrite = eng.fresh_bool('iswrite')
@@ -271,7 +275,7 @@ def unit_ld(virt=False):
             v = c13.hub_read(hub.init, pa, 8)
             spec_reads.append((pa, v))
             return v
-        sp = VM.translate_v_ld(init, va, ispriv, iswrite, wasaligned, rd8)
+        sp = VM.translate_v_ld(init, va, ispriv, iswrite, wasaligned, rd8, hyp)
         dc = sp['unpred']
         if exc is not None and issubclass(exc.cls, NotImplementedError):
             # Long-descriptor fault reporting consults the mock TLBLookupCameFromCacheMaintenance(); IMPLEMENTATION DEFINED MAIR
@@ -333,7 +337,7 @@ def unit_ld(virt=False):
             exc = e
         finally:
             signal.alarm(0)
-        sp = VM.translate_v_ld(init, va, ispriv, iswrite, wasal, lambda pa: table.get(pa, 0))
+        sp = VM.translate_v_ld(init, va, ispriv, iswrite, wasal, lambda pa: table.get(pa, 0), hyp)
         lines = ['va=%s priv=%s write=%s aligned=%s sctlr=%s ttbcr=%s ttbr0=%s ttbr1=%s mair0=%s descriptors read=%s' % (
             hex(va), ispriv, iswrite, wasal, hex(init['sctlr']), hex(init['ttbcr']), hex(init['ttbr0_64']), hex(init['ttbr1_64']),
             hex(init['mair0']), {hex(a): hex(v) for a, v in table.items()})]
@@ -505,7 +509,7 @@ def unit_safety(which):
 
 
 def units(tier):
-    us = [unit(), unit_ld(), unit(True)] + [unit_safety(w) for w in ('hyp', 'stage2,s1 off')]
+    us = [unit(), unit_ld(), unit(True), unit_ld(True, True)] + [unit_safety(w) for w in ('hyp', 'stage2,s1 off')]
     if tier == 'thorough':
         # (the Long-descriptor walk with the Virtualization Extensions present and the combination "stage 1 on + stage 2" explore
         # several 10^5 paths: thorough tier only; the quick tier covers stage 2 with the stage 1 MMU off and Hyp mode)
